@@ -78,6 +78,8 @@ def header_lattice(v):
     for wl in wlists:
         for pw in range(1, len(wl) + 1):
             out.append(dict(aperture=aps[0], ftyp=(0, 0), xfields=[0.0, 0.0], yfields=[0.0, 5.0], waves=wl, pwav=pw, gcat=['SCHOTT']))
+            if len(wl) <= 4:
+                out.append(dict(aperture=aps[0], ftyp=(0, 0), xfields=[0.0, 0.0], yfields=[0.0, 5.0], waves=wl, pwav=pw, gcat=['SCHOTT'], pwav_last=True))
     return out
 
 
